@@ -51,7 +51,7 @@ Proof.
 Qed.
 
 Lemma qname_padding q env a b v :
-  wf_qname q = true -> val_qname env q = Some v -> qname_sp_py_guard q = true ->
+  wf_qname q = true -> val_qname env q = Some v -> qname_sp_edge_guard q = true ->
   forallb xml_ws a = true -> forallb xml_ws b = true ->
   ConvQName.qname_deser (a ++ lex_qname q ++ b) (Some env) = ConvQName.qname_deser (lex_qname q) (Some env).
 Proof.
